@@ -240,17 +240,19 @@ class Parser:
         token = self.next()
         kind = token.kind
         precedence = PRECEDENCES.get(kind, PRECEDENCE_LOWEST)
-        right = self.parse_expression(precedence)
+
+        # Collect a chain of operands of the same operator in a loop, so that
+        # a long choice or sequence does not recurse once per operand.
+        operands = [left, self.parse_expression(precedence + 1)]
+        while self.current().kind == kind:
+            self.pos += 1
+            operands.append(self.parse_expression(precedence + 1))
 
         if kind == TokenKind.CHOICE_OP:
-            if isinstance(right, Choice):
-                return Choice(left, *right.expressions)
-            return Choice(left, right)
+            return Choice(*operands)
 
         if kind == TokenKind.SEQUENCE_OP:
-            if isinstance(right, Sequence):
-                return Sequence(left, *right.expressions)
-            return Sequence(left, right)
+            return Sequence(*operands)
 
         raise PestGrammarSyntaxError(f"unexpected operator {kind}", token=token)
 
